@@ -274,7 +274,7 @@ impl Group for C12Node {
          with distinct payment hashes, restarts through KVVPersister<MemoryKVVStore> + Node::restore_node between any two \
          approvals; non-trivial = at least one approval, one refusal and one restart"
     }
-    fn budget(&self, tier: Tier) -> usize { if tier == Tier::Quick { 60 } else { 1500 } }
+    fn budget(&self, tier: Tier) -> usize { if tier == Tier::Quick { 300 } else { 5000 } }
     fn corpus(&self) -> Vec<Vec<String>> {
         vec!["n_new 1000 h|n_keysend 1000000 900|n_keysend 1000000 900|n_restart 1000 h|n_keysend 1000000 900|n_keysend 1000001 100|n_keysend 1000001 1"
             .split('|').map(|s| s.to_string()).collect()]
@@ -395,6 +395,141 @@ impl Group for C12Node {
     }
 }
 
+// ---------------------------------------------------------------------------------------------
+
+/// Fee velocity: approvals through the real on-chain check (`check_and_sign_onchain_tx`) of a
+/// wallet-to-wallet transaction whose fee is the requested amount.
+pub struct C12Fee;
+
+fn fee_services(persister: Arc<dyn Persist>, clock: Arc<ManualClock>, limit: u64, ty: VelocityControlIntervalType) -> NodeServices {
+    let mut policy = make_default_simple_policy(Network::Testnet);
+    policy.fee_velocity_control = VelocityControlSpec { limit_msat: limit, interval_type: ty };
+    NodeServices {
+        validator_factory: Arc::new(SimpleValidatorFactory::new_with_policy(policy)),
+        starting_time_factory: make_genesis_starting_time_factory(Network::Testnet),
+        persister,
+        clock,
+        trusted_oracle_pubkeys: vec![],
+    }
+}
+
+impl Group for C12Fee {
+    fn property(&self) -> &'static str { "C12" }
+    fn model(&self) -> Option<&'static str> { Some("velocity_node") }
+    fn rule(&self) -> &'static str {
+        "fee: real Node with ManualClock and a fee velocity policy (Hourly/Daily, limits of a few thousand sat); each request is a          wallet-to-wallet transaction with the requested fee passed through Node::check_and_sign_onchain_tx; restarts through the real          persister between any two requests; non-trivial = at least one approval, one refusal and one restart"
+    }
+    fn budget(&self, tier: Tier) -> usize { if tier == Tier::Quick { 40 } else { 800 } }
+    fn corpus(&self) -> Vec<Vec<String>> {
+        vec!["f_new 5000000 d|f_onchain 1600000000 3000|f_restart 5000000 d|f_onchain 1600000100 3000|f_onchain 1600000200 1000"
+            .split('|').map(|s| s.to_string()).collect()]
+    }
+    fn model_line(&self, op: &str) -> Option<String> {
+        let t: Vec<&str> = op.split_whitespace().collect();
+        Some(match t.as_slice() {
+            ["f_new", l, ty] => format!("spec {} {}", l, ty),
+            ["f_onchain", now, fee] => format!("insert {} {}", now, fee.parse::<u64>().unwrap_or(0) * 1000),
+            ["f_restart", l, ty] => format!("restart {} {}", l, ty),
+            _ => op.to_string(),
+        })
+    }
+    fn gen_case(&self, rng: &mut Rng, tier: Tier) -> Vec<String> {
+        let limit = *rng.pick(&[5_000_000u64, 3_000_000, 10_000_000]);
+        let ty = *rng.pick(&["h", "d"]);
+        let (bi, n) = if ty == "d" { (3600u64, 24u64) } else { (300, 12) };
+        let mut ops = vec![format!("f_new {} {}", limit, ty)];
+        let len = rng.range(3, if tier == Tier::Quick { 8 } else { 16 }) as usize;
+        let mut t = 1_600_000_000u64 + rng.below(10_000);
+        for _ in 0..len {
+            t += match rng.below(5) { 0 => 0, 1 => bi - (t % bi), 2 => rng.below(bi), 3 => bi * rng.range(1, n), _ => rng.below(bi * n) };
+            if rng.chance(1, 3) { ops.push(format!("f_restart {} {}", limit, ty)); }
+            let fee = match rng.below(5) { 0 => limit / 1000, 1 => limit / 2000 + 1, 2 => limit / 2000, 3 => 300, _ => rng.range(200, limit / 1000) };
+            ops.push(format!("f_onchain {} {}", t, fee));
+        }
+        ops
+    }
+    fn exec_case(&self, ops: &[String]) -> CaseOut {
+        use lightning_signer::bitcoin::secp256k1::Secp256k1;
+        use lightning_signer::node::SpendType;
+        let mut co = CaseOut::default();
+        let persister: Arc<dyn Persist> = Arc::new(KVVPersister(MemoryKVVStore::new([7u8; 16]), JsonFormat));
+        let clock = Arc::new(ManualClock::new(Duration::from_secs(1_600_000_000)));
+        let seed = [9u8; 32];
+        let config = NodeConfig { network: Network::Testnet, key_derivation_style: KeyDerivationStyle::Native, use_checkpoints: true, allow_deep_reorgs: true };
+        let mut node: Option<Arc<Node>> = None;
+        let mut log: Vec<(u64, u64)> = Vec::new();
+        let (mut st, mut sf, mut sr) = (false, false, false);
+        for (i, op) in ops.iter().enumerate() {
+            let t: Vec<&str> = op.split_whitespace().collect();
+            let line = match t.as_slice() {
+                ["f_new", l, ty] => {
+                    let n = Arc::new(Node::new(config, &seed, vec![], fee_services(persister.clone(), clock.clone(), l.parse().unwrap(), itype(ty).unwrap())));
+                    persister.new_node(&n.get_id(), &config, &*n.get_state()).unwrap();
+                    persister.new_tracker(&n.get_id(), &n.get_tracker()).unwrap();
+                    n.add_allowlist(&[]).unwrap();
+                    let d = digest(&n.get_state().fee_velocity_control);
+                    node = Some(n);
+                    log.clear();
+                    format!("ok {}", d)
+                }
+                ["f_onchain", now, fee] => {
+                    let n = node.as_ref().expect("f_new first").clone();
+                    let now: u64 = now.parse().unwrap();
+                    let fee: u64 = fee.parse().unwrap();
+                    clock.set(Duration::from_secs(now));
+                    let node_ctx = TestNodeContext { node: n.clone(), secp_ctx: Secp256k1::signing_only() };
+                    let mut tx_ctx = TestFundingTxContext::new();
+                    tx_ctx.add_wallet_input(&node_ctx, SpendType::P2wpkh, 1, 1_000_000 + fee);
+                    tx_ctx.add_wallet_output(&node_ctx, SpendType::P2wpkh, 1, 1_000_000);
+                    let tx = tx_ctx.to_tx();
+                    let r = std::panic::catch_unwind(std::panic::AssertUnwindSafe(|| tx_ctx.sign(&node_ctx, &tx)));
+                    let (d, limit, wlen) = {
+                        let s = n.get_state();
+                        let v = &s.fee_velocity_control;
+                        (digest(v), v.limit, (v.buckets.len() as u64 - 1) * v.bucket_interval as u64)
+                    };
+                    match r {
+                        Err(_) => { co.tags.insert("onchain:panic".into()); "panic".to_string() }
+                        Ok(Err(e)) => {
+                            sf = true;
+                            co.tags.insert(format!("onchain:err:{:?}", e.code()));
+                            format!("false {}", d)
+                        }
+                        Ok(Ok(_)) => {
+                            st = true;
+                            co.tags.insert("onchain:ok".into());
+                            log.push((now, fee * 1000));
+                            if limit != u64::MAX {
+                                if let Some((t0, sum)) = window_violation(&log, wlen, limit) {
+                                    co.violations.push(Violation {
+                                        kind: "fee-window-exceeds-limit".into(),
+                                        desc: format!("node approved {} msat of fees within window [{}, {}] with fee velocity limit {}", sum, t0, t0 + wlen, limit),
+                                        at: i,
+                                    });
+                                }
+                            }
+                            format!("true {}", d)
+                        }
+                    }
+                }
+                ["f_restart", l, ty] => {
+                    sr = true;
+                    drop(node.take());
+                    let (node_id, entry) = persister.get_nodes().unwrap().into_iter().next().unwrap();
+                    let n = Node::restore_node(&node_id, entry, &seed, fee_services(persister.clone(), clock.clone(), l.parse().unwrap(), itype(ty).unwrap())).unwrap();
+                    let d = digest(&n.get_state().fee_velocity_control);
+                    node = Some(n);
+                    format!("ok {}", d)
+                }
+                _ => "bad-op".to_string(),
+            };
+            co.out.push(line);
+        }
+        co.nontrivial = st && sf && sr;
+        co
+    }
+}
+
 pub fn groups() -> Vec<Box<dyn Group>> {
-    vec![Box::new(C12Unit), Box::new(C12Node)]
+    vec![Box::new(C12Unit), Box::new(C12Node), Box::new(C12Fee)]
 }
